@@ -230,11 +230,16 @@ func decodeFacts(a *An) *DecodeFacts {
 			if cal == nil {
 				continue
 			}
-			if ro.isSendEvent(cal) {
-				df.SendCalls = append(df.SendCalls, call)
+			// a wrapper called with a zero event / a nil error sends nothing of that kind
+			if ev := ro.eventArg(call); ev != nil && ro.isSendEvent(cal) {
+				if _, isWrap := ro.SendWrap[cal]; !isWrap || !isZeroValue(ev) {
+					df.SendCalls = append(df.SendCalls, call)
+				}
 			}
-			if ro.isSendError(cal) {
-				df.ErrCalls = append(df.ErrCalls, call)
+			if er := ro.errorArg(call); er != nil && ro.isSendError(cal) {
+				if _, isWrap := ro.SendWrap[cal]; !isWrap || !isNilConst(er) {
+					df.ErrCalls = append(df.ErrCalls, call)
+				}
 			}
 			for _, arg := range call.Call.Args {
 				if arg == df.RecordConv && a.P.inMain(cal) {
@@ -253,6 +258,20 @@ func decodeFacts(a *An) *DecodeFacts {
 		return nil
 	}
 	return df
+}
+
+// isZeroValue: v is a zero constant, or a load of a local cell that is never stored to (Event{}).
+func isZeroValue(v ssa.Value) bool {
+	v = stripConv(v)
+	if k, ok := v.(*ssa.Const); ok {
+		return k.Value == nil
+	}
+	if ld, ok := v.(*ssa.UnOp); ok && ld.Op == token.MUL {
+		if al, ok := ld.X.(*ssa.Alloc); ok {
+			return len(cellStores(al)) == 0 && !fieldStored(al) && !cellEscapes(al)
+		}
+	}
+	return false
 }
 
 // linear form: sum of coef*value + const, over ADD / conversions / constants.
@@ -357,9 +376,6 @@ func (df *DecodeFacts) loopCtx(root *Ctx) *Ctx {
 // inReader resolves a value of the decode-loop function to the reader's value it is bound to.
 func (df *DecodeFacts) inReader(e *Engine, v ssa.Value) ssa.Value {
 	v = stripConv(v)
-	if len(df.Chain) == 0 {
-		return v
-	}
 	c := df.loopCtx(e.rootCtx(df.Reader))
 	for i := 0; i < 4; i++ {
 		rv, rc := c.resolve(v)
